@@ -80,7 +80,9 @@ impl<'a> Graph for RegGraph<'a> {
                 }
             }
             let fields = |fs: &[scale_info::Field<PortableForm>]| {
-                fs.iter().map(|f| (f.name.clone(), f.ty.id)).collect::<Vec<_>>()
+                fs.iter()
+                    .map(|f| (f.name.clone(), f.ty.id))
+                    .collect::<Vec<_>>()
             };
             return match &ty.type_def {
                 TypeDef::Composite(c) => Node::Composite(fields(&c.fields)),
@@ -161,9 +163,9 @@ fn bisim_inner<A: Graph, B: Graph>(
         return Err(mk("broken-right".into(), at, na.kind().into(), m.clone()));
     }
     let fields = |fa: &[(Option<String>, A::Id)],
-                      fb: &[(Option<String>, B::Id)],
-                      assumed: &mut HashSet<(A::Id, B::Id)>,
-                      at: &mut String|
+                  fb: &[(Option<String>, B::Id)],
+                  assumed: &mut HashSet<(A::Id, B::Id)>,
+                  at: &mut String|
      -> Result<(), Mismatch> {
         if fa.len() != fb.len() {
             return Err(mk(
